@@ -489,7 +489,7 @@ def get_instructions_bytes(
                 constants=constants,
                 cells=cells,
                 linestarts=linestarts,
-                line_offset=0,
+                line_offset=line_offset,
                 exception_entries=exception_entries,
             )
         )
